@@ -441,7 +441,7 @@ func (fr *Frame) exec(st *State, instr ssa.Instruction) {
 			fr.setLocal(st, x, vc.zeroVal(et))
 			return
 		}
-		r := vc.newObject(st, x.Name(), et, lay.of(et).Kinds)
+		r := vc.newObject(st, "cell."+x.Name(), et, lay.of(et).Kinds)
 		fr.setVal(x, Val{S: []Term{r, "0"}})
 	case *ssa.Store:
 		if a, ok := x.Addr.(*ssa.Alloc); ok && fr.reg[a] {
